@@ -43,6 +43,8 @@ def w_act(lean_act: str):
     a = lean_act.strip("()")
     if a.startswith(".viaItem"):
         return ["av" + a.split()[1]]
+    if a.startswith(".gate"):
+        return ["ag" + a.split()[1]]
     return [{".truthy": "at", ".none": "an", ".raises": "ar", ".mayRaise": "am", ".unknown": "au"}[a]]
 
 
